@@ -258,6 +258,25 @@ theorem C07_safe_fragments_lex (as : List AFrag) (st : PState) (TS : List Tok) (
   · obtain ⟨lt', _, hC⟩ := KC_run as st TS none none hK ⟨by rw [ht0]; rfl, Or.inl ht0⟩ (fun t0 h => by cases h) (Or.inl rfl) hs hcl
     exact hC.1
 
+/-- **A split string literal is re-joined.**  The tokens of a split rendering `'x1' + 'x2' + … + 'xn'` (what the scanner reads
+where `breakLongStr` cut the literal `'x1x2…xn'`: `StrSplit`, `C07_string_literal_lexes`) are parsed as the left-nested sum of
+the literals, and `joinStr` — the one identification the oracle applies, to both sides — maps that sum back to the literal
+`x1 ++ … ++ xn`: for a string literal standing as a whole expression, scan ∘ parse ∘ joinStr recovers it.  Both operands of every
+`+` are string literals, so the `+` is concatenation whatever else `+` may mean.  (Not proved: the same inside an arbitrary
+surrounding expression — there the oracle applies `joinStr` to source and output.) -/
+theorem C07_split_literal_rejoined (x : List Char) (ys : List (List Char)) :
+    parse (sumToks ((x :: ys).map escQ)) = some (sumExpr x ys)
+      ∧ joinStr (sumExpr x ys) = .lit (.str (x ++ ys.flatten)) := by
+  refine ⟨?_, joinStr_sumExpr x ys⟩
+  rw [← toks_sumExpr x ys false none (fun _ => by decide)]
+  exact C07_parse_print _ (wfE_sumExpr x ys)
+
+/-- the same for the parenthesised rendering `( 'x1' + … + 'xn' )` that `breakLongStr` writes in operand position (n ≥ 2) -/
+theorem C07_split_literal_rejoined_paren (x : List Char) (ys : List (List Char)) (hne : ys ≠ []) :
+    parse ([.lp] ++ sumToks ((x :: ys).map escQ) ++ [.rp]) = some (sumExpr x ys) := by
+  rw [← toks_sumExpr_paren x ys hne]
+  exact C07_parse_print_paren _ (wfE_sumExpr x ys)
+
 /-- grammar token of a punctuation/operator token of the model -/
 def symTokName : Tok → Option String
   | .lp => some "TOK_LEFT_PAREN" | .rp => some "TOK_RIGHT_PAREN" | .lb => some "TOK_LEFT_BRACKET" | .rb => some "TOK_RIGHT_BRACKET"
